@@ -463,7 +463,7 @@ let cmd_idx args =
             | IKeySize -> "idx open Err Validation:IndexKeySize"
             | IBlobSize -> "idx open Err Validation:IndexBlobSize"
             | IMagic -> "idx open Err Validation:IndexMagicByte"
-            | IPanicOrEof -> "*")))
+            | IPanicOrEof -> "idx open Err Io:UnexpectedEof")))
   | _ -> emit "*"
 let () = handlers := ("idx", cmd_idx) :: !handlers
 
